@@ -4,7 +4,7 @@ package main
 // A rule listed for several properties runs once per process; its obligations count for each of them.
 var propertyRules = map[string][]string{
 	"C01": {"LK1", "LK2", "LK3", "LK4", "LK6", "RD1", "RD2", "VD2", "VD3", "OU3", "WR5"},
-	"C02": {"LK1", "LK2", "LK3", "LK4", "LK5", "LK6", "WR1", "WR2", "WR5", "DT4", "VD1"},
+	"C02": {"LK1", "LK2", "LK3", "LK4", "LK5", "LK6", "WR1", "WR2", "WR3", "WR5", "DT4", "VD1"},
 	"C03": {"WR1", "WR2", "WR4", "WR6", "LK1"},
 	"C04": {"WR3", "LK5", "WR1"},
 	"C05": {"DT5", "DT4", "WR1", "LK4"},
@@ -12,7 +12,7 @@ var propertyRules = map[string][]string{
 	"C07": {"VD5", "VD6", "LK2", "LK3", "LK4", "LK5", "VD13"},
 	"C08": {"RD1", "RD2"},
 	"C09": {"VD7", "VD6", "VD10", "LK4", "DT2", "DT5"},
-	"C10": {"VD1", "LK5", "VD11", "VD12", "VD14"},
+	"C10": {"VD1", "LK5", "WR3", "VD11", "VD12", "VD14"},
 	"C11": {"VD12", "VD13", "VD15", "VD1", "LK5", "WR1", "WR2", "VD5", "OU3"},
 	"C12": {"DT1", "DT2", "DT3", "DT4", "WR2", "LK6"},
 	"C13": {"LK7", "WR1", "WR3", "WR6"},
